@@ -368,7 +368,7 @@ fn check(prog: &Prog, calls: &[Call], words: &[u64]) -> Option<J> {
     for c in calls {
         match &c.op {
             Op::MarkRange(s, l) | Op::ResetRange(s, l) | Op::MarkDirty(s, l) => {
-                for p in *s..(*s + *l).min(prog.pages) {
+                for p in *s..s.saturating_add(*l).min(prog.pages) {
                     touched.insert(p);
                 }
             }
@@ -528,6 +528,21 @@ fn systematic() -> Vec<Prog> {
         ] {
             let name = intern(format!("groups/{}/{}", iname, sn));
             v.push(Prog { name, pages: 640, threads, init: init.clone() });
+        }
+    }
+    // ranges that start inside the bitmap and END BEYOND IT, on bitmaps whose page count is not a
+    // multiple of 64 (the last word has unused bits): whatever the range code does with the tail,
+    // no harvest, clone or read running in between may see a page at or beyond the page count
+    for (pn, pages, start) in [("70-pages", 70usize, 66usize), ("100-pages", 100, 90), ("130-pages", 130, 120)] {
+        for (xn, x) in [("mark", MarkRange(start, 1000)), ("mark_dirty", MarkDirty(start, 1000)), ("mark-to-usize-max", MarkRange(start, usize::MAX - start)), ("reset", ResetRange(start, 1000))] {
+            for (fnm, f) in [("harvest", vec![Harvest]), ("two-harvests", vec![Harvest, Harvest]), ("clone", vec![Clone]), ("harvest-then-mark-last-page", vec![Harvest, SetBit(pages - 1)])] {
+                if pages == 130 && f.len() > 1 {
+                    continue;
+                }
+                let name = intern(format!("pastend/{}/{}-vs-{}", pn, xn, fnm));
+                let init = if xn == "reset" { vec![MarkRange(start.saturating_sub(2), 1000)] } else { vec![] };
+                v.push(Prog { name, pages, threads: vec![vec![x.clone()], f], init });
+            }
         }
     }
     // value-dependent states of a word: every page of the first word dirty (and, as a contrast,
